@@ -45,7 +45,7 @@ def run_maxflow(case):
 
 def _cost_event(fn, r, ids):
     ev = {"e": "ret", "fn": fn, "status": r.status.name, "flows": [], "cost": 0, "exact": True}
-    if r.status.name == "OPTIMAL":
+    if r.status.name in ("OPTIMAL", "FEASIBLE"):
         ev["flows"] = _flows(r.solution, ids)
         c = float(r.objective)
         ev["cost"] = int(round(c))
@@ -78,6 +78,12 @@ def run_mincost(case):
             events.append(_cost_event("network_simplex", r, {i: i for i in range(n)}))
         except Exception as ex:  # noqa: BLE001
             events.append({"e": "raise", "fn": "network_simplex", "what": type(ex).__name__})
+        for mi in case.get("ns_max_iters", (0, 1, 2, 4)):       # iteration limits: MAX_ITER / FEASIBLE are fine, a wrong verdict is not
+            try:
+                r = network_simplex(n, [tuple(a) for a in case["arcs"]], list(supplies), max_iter=mi)
+                events.append(_cost_event("network_simplex", r, {i: i for i in range(n)}))
+            except Exception as ex:  # noqa: BLE001
+                events.append({"e": "raise", "fn": "network_simplex", "what": type(ex).__name__})
     return {"kind": "mincost", "n": n, "arcs": case["arcs"], "s": case["s"], "t": case["t"], "demand": case.get("demand", 0),
             "supplies": supplies, "events": events, "input": case}
 
